@@ -2,6 +2,7 @@ package main
 
 import (
 	"fmt"
+	"regexp"
 	"go/token"
 	"go/types"
 	"sort"
@@ -125,9 +126,19 @@ func (x *fx) declareFun(name string, args []string, ret string) {
 	x.decls = append(x.decls, fmt.Sprintf("(declare-fun %s (%s) %s)", name, strings.Join(args, " "), ret))
 }
 
+var defRe = regexp.MustCompile(`^\(= \|[^|]+\| `)
+
+// assume records an assumption.  While a block is being executed, anything
+// that is not a definition of a named symbol (|x| = term) is guarded by the
+// block's path condition: facts such as "the value loaded here is well-formed"
+// hold only if the block is reached, and stating them unconditionally would
+// constrain the other paths (a vacuity hole found by the return canaries).
 func (x *fx) assume(f string) {
 	if f == "true" {
 		return
+	}
+	if x.curBlock != nil && x.curPC != "true" && x.curPC != "" && !defRe.MatchString(f) {
+		f = "(=> " + x.curPC + " " + f + ")"
 	}
 	x.steps = append(x.steps, f)
 }
